@@ -25,5 +25,6 @@ for p in sys.argv[1:]:
             print(f"{os.path.basename(p)}: BROKEN [{f.kind}] {f.what[:600]}", flush=True)
     finally:
         subprocess.run(["git", "-C", "/repo", "checkout", "--", "."])
+        subprocess.run(["git", "-C", "/repo", "clean", "-fdq", "--", "tests", "src", "qty-macros/src", "qty-macros/tests"])     # files a patch added
 fw.regen(log)
 fw.coq_make(targets, log)
